@@ -71,7 +71,9 @@ theorem Runs.tryCatch {G : GCtx} {A : Act} (hA : A.OK G) {ip l slot : Nat} {stk 
       (mem1.set (A.mp - (slot : Int)) (.ref w1.heap.size)) ⟨w1.heap.push (errCell msg tsp), w1.out⟩ := by
   refine ⟨fun k => ?_, fun hi => (hbody.inv hi).push _ (fun fs h => by
     cases h
-    exact ⟨rfl, rfl⟩)⟩
+    intro k hk
+    simp only [methNames, List.mem_cons, List.mem_nil_iff, or_false] at hk
+    rcases hk with rfl | rfl | rfl | rfl | rfl | rfl <;> rfl)⟩
   obtain ⟨k1, s1, frames', ip', mp', xs, e1, e2⟩ := hbody (k + 1)
   refine ⟨1 + (k1 + (1 + (1 + 1))), ?_⟩
   rw [execHN_add, execHN_one, exec1H_of_next (mkSI_setTry G.code G.lim G.s A.fn ip A.rest A.mp k stk mem w A.c hA.code
